@@ -61,7 +61,14 @@ PROOF_UNITS = {
             for m in ('removal', 'accum') for t in ('int', 'none')]
            + [u for u in _observer_units('removal') if u[1] == 'HasInteraction']
            + [('contracts.iters', 'InteractionsIter', ('DynGraph',), {'t': t}) for t in ('none', 'int')]
-           + [('contracts.iters', 'OutInteractionsIter', ('DynDiGraph',), {'t': t}) for t in ('none', 'int')],
+           + [('contracts.iters', 'OutInteractionsIter', ('DynDiGraph',), {'t': t}) for t in ('none', 'int')]
+           + [('contracts.neighbours', 'NeighbourListing', (cls, f), {'mode': m, 't': t})
+              for (cls, f) in (('DynGraph', 'neighbors'), ('DynGraph', 'neighbors_iter'), ('DynDiGraph', 'successors_iter'), ('DynDiGraph', 'predecessors_iter'),
+                               ('DynDiGraph', 'successors'), ('DynDiGraph', 'predecessors'))
+              for m in ('removal', 'accum') for t in ('int', 'none')]
+           + [('contracts.neighbours', 'DegreeIter', (cls, f), {'mode': m, 't': t})
+              for (cls, f) in (('DynGraph', 'degree_iter'), ('DynDiGraph', 'degree_iter'), ('DynDiGraph', 'in_degree_iter'), ('DynDiGraph', 'out_degree_iter'))
+              for m in ('removal', 'accum') for t in ('int', 'none')],
     'C09': [('contracts.writers', 'GenerateSnapshots', (cls,), {}) for cls in ('DynGraph', 'DynDiGraph')],
     'C16': [('contracts.convert', 'ToDirected', (), {})] + [('contracts.ctor', 'Init', ('DynDiGraph',), {'edge_removal': 'default'})],
     'C10': [('contracts.writers', 'GenerateInteractions', (cls,), {}) for cls in ('DynGraph', 'DynDiGraph')]
